@@ -657,6 +657,15 @@ func (h *c15H) Handle(ctx *context.Context) string {
 	p := req.PublishPacket()
 	rec := c15PipeRec{cid: req.Client().ClientID(), topic: p.TopicName, payload: string(p.Payload), qos: int(p.Qos), mid: p.MessageID}
 	h.pipeSeen = append(h.pipeSeen, rec)
+	for _, cl := range h.clients {
+		if cl.spec.ID == rec.cid {
+			for _, mid := range cl.pubOrder {
+				if cl.pubs[mid].payload == rec.payload {
+					cl.pubs[mid].seen++
+				}
+			}
+		}
+	}
 	h.progress++
 	h.r.Eventf("pipeline %s %s q%d id%d %q", rec.cid, rec.topic, rec.qos, rec.mid, rec.payload)
 	if h.drop[p.TopicName] {
@@ -1232,7 +1241,7 @@ func (h *c15H) satisfied() bool {
 		}
 		for _, mid := range cl.pubOrder {
 			cp := cl.pubs[mid]
-			if cp.q == 1 && cp.acks == 0 && !cp.dropped {
+			if cp.q == 1 && cp.acks == 0 && !cp.dropped && (cp.seen > 0 || h.sc.Limit == 0) {
 				return false
 			}
 		}
@@ -1312,7 +1321,7 @@ func (h *c15H) evaluate() {
 				if m.exp[o.idx].lower && otherLower == "" {
 					otherLower = o.spec.ID
 				}
-				if o.hung && m.exp[o.idx].kind != c15None && hungMatched == "" {
+				if o.hung && (m.exp[o.idx].kind == c15Must || m.exp[o.idx].kind == c15May) && hungMatched == "" {
 					hungMatched = o.spec.ID
 				}
 			}
